@@ -533,7 +533,8 @@ func runUnits(c *mon.Case) {
 
 func Spec() *mon.Spec {
 	return &mon.Spec{
-		ID: "C03", Level: "exploration",
+		ID:            "C03",
+		SpinViolation: true, Level: "exploration",
 		Rule: "case = batch of strings: all strings of <= 2 symbols of the adversarial alphabet (metacharacters, whitespace, quotes, backslash, tilde, invalid UTF-8 pieces, controls, wide/astral runes, keywords), every single byte alone and next to letters, a stride through all Unicode planes, and random strings (adversarial pieces up to 24, random bytes, near-barewords, random runes from all planes, leading tilde). For each string s: `put Quote(s) tail` parses without error with Quote(s) as exactly one string-primary argument whose value is s and evaluates to [s tail]; `keys [&Quote(s)=x]` parses to a one-pair map whose key is that primary and evaluates to [s]; `put {Quote(s)} tail` parses to a one-item braced list holding that primary and evaluates to [s tail]; QuoteAs(s, bare/single/double) parses to s with the reported style; `QuoteCommandName(s) arg` parses to a form whose head is one string primary that statically evaluates (cmpd.StringLiteral, Evaler.PurelyEvalCompound) to s, and with a function named s in scope the quoted text in command position calls it; `put $QuoteVariableName(s) tail` parses to one Variable primary with name s and, with such a variable in scope, evaluates to its value. Non-trivial = Quote(s) != s (quotes are needed); distinct by s.",
 		Assumptions: []string{
 			"besides the two contexts named by the property (argument, map key) the general form is also checked as the single item of a braced list: parse.Quote is documented to return 'a valid Elvish expression that evaluates to the given string' and quotes for all expression contexts (an unquoted comma is only special there)",
